@@ -32,7 +32,11 @@ CLAIMED = {
          "Cycle templates x sizes x mini-stream fill levels at and around sector multiples."),
  "C17": ("model_checking", "5 C17", "TLC trace validation of metadata setters/getters against CfbTree; FILETIME quantisation table from Python big integers",
          "Values are opaque tokens for TLC; expected quantisation comes from an independent table."),
+ "C14": ("model_checking", "5 C14", "CfbLock (TLA+ model of the writer-preferring RwLock and per-call lock programs) model checked with TLC on programs extracted from the real library under the cfg(cfb_verif) instrumented lock; Trace_Lock validates real multi-threaded runs (NonReentrant, mutual exclusion, linearisable lengths, deadlock on stall)",
+         "Every interleaving of 2-3 readers and the handle thread over the extracted programs; the schedule-independent NonReentrant rule is checked on every recorded acquisition, so the hazard is caught whether or not a run deadlocks."),
 }
+
+HOOK_COMMITS = ["8fb4cf3"]
 
 def main():
     m = json.load(open(os.path.join(ROOT, "MANIFEST.json")))
@@ -65,8 +69,8 @@ def main():
     m["not_applicable"] = [{"property_id": p["id"], "reason": na.get(p["id"], "machinery for this property is not finished in this round; not claimed")}
                            for p in props if p["id"] not in claimed]
     m["engines"] = [{"name": "tlc-trace-validation", "path": "spec/", "serves_properties": [c["property_id"] for c in checks],
-                     "kind_free_text": "explicit TLA+ specifications (CfbTree, CfbImage, CfbHandle, CfbLock, CfbDir, CfbPhys) model checked with TLC and bound to the code by trace validation and spec-generated replays"}]
-    m["hooks"]["source_commits"] = extra.get("hook_commits", [])
+                     "kind_free_text": "explicit TLA+ specifications (CfbTree, CfbImage, CfbHandle, CfbLock) model checked with TLC and bound to the code by trace validation and spec-generated replays"}]
+    m["hooks"]["source_commits"] = extra.get("hook_commits", HOOK_COMMITS)
     m["notes"] = "bin/check <id> rebuilds the harness against /repo's working tree (cfg cfb_verif), generates scripts (TLC-generated + seeded), runs them on the real library and lets TLC judge every recorded event."
     json.dump(m, open(os.path.join(ROOT, "MANIFEST.json"), "w"), indent=1)
     print("claimed:", [c["property_id"] for c in checks])
